@@ -32,8 +32,10 @@ SHAPES = {
     "$(A)-closes-stdout": ("stdout", [([b"hello\n", "close"], 0)]),
     "!(A)-closes-stdout-rc3": ("object", [([b"x\ny\n", "close"], 3)]),
     "$(A)-returns-str": ("stdout", [([b"a\n", ("return", "ret\n")], 0)]),
+    # several views of ONE pipeline object in a row: iterate its lines first, then ask for the rest
+    "!(A)-iterate-then-views": ("objectiter", [([b"a\n", b"b\n"], 2)]),
 }
-QUICK = ["$(A)-two-chunks", "!(A)-two-chunks", "$(A);$(A)", "$(A|B);$(A)", "$(A)-closes-stdout"]  # "$(A|B)" is a prefix of the last one
+QUICK = ["$(A)-two-chunks", "!(A)-two-chunks", "$(A);$(A)", "$(A|B);$(A)", "$(A)-closes-stdout", "!(A)-iterate-then-views"]  # "$(A|B)" is a prefix of the last one
 
 _SHAPE = None
 _XSH = None
@@ -199,6 +201,10 @@ def _commands(s, kind, stages):
         out = subproc_captured_stdout(*cmds)
         rtn = _XSH.lastcmd.rtn if getattr(_XSH, "lastcmd", None) is not None else None
         res = {"out": out, "rtn": rtn}
+    elif kind == "objectiter":
+        obj = subproc_captured_object(*cmds)
+        it = [ln for ln in obj]
+        res = {"iterated": it, "raw": obj.raw_out, "out": obj.out, "rtn": obj.rtn, "lines": list(obj.lines), "raw_again": obj.raw_out}
     else:
         obj = subproc_captured_object(*cmds)
         obj.end()
@@ -251,8 +257,11 @@ def _check(r, prefix):
             want = want + "|" + want
         if out != want:
             V(f"output-differs:{kind}:{'lost' if len(out or '') < len(want) else 'extra'}", "captured output is exactly what the command wrote", out, want)
-        if kind == "object" and v.get("raw") is not None and v["raw"] != data:
+        if kind in ("object", "objectiter") and v.get("raw") is not None and v["raw"] != data:
             V("raw-out-differs", "raw_out is exactly the bytes written", v["raw"][:60], data[:60])
+        if kind == "objectiter":
+            if "".join(v["iterated"]) != want or "".join(v["lines"]) != want or v["raw_again"] != data:
+                V("views-of-one-object-disagree", "every view of the pipeline object shows the complete output", {"iterated": v["iterated"], "lines": v["lines"], "raw_again": v["raw_again"][:60]}, want)
     else:
         mode = stages[1][0]
         if kind == "object" and v.get("raw") is not None:
